@@ -23,7 +23,7 @@ class C17(Prop):
     assumptions = ['the per-chain work limit is the one in the library parameter table (tied by T1 Tables.ChainPow)']
     rule = ('exponents 0..255 x boundary/mined/random mantissas with and without the sign bit; integers of every '
             'bit length 0..256 (edges+random); per chain: hashes at target-1/target/target+1 for targets around '
-            'the chain limit; non-trivial = not the all-zero input; distinct by canonical request line')
+            'the chain limit; histories of checks in one process with the chain switched between them (every ordered chain pair x the same compact value repeated after an accepted / rejected check, random 2..6-step histories); non-trivial = not the all-zero input; distinct by canonical request line')
 
     def setup(self):
         ensure_repo_on_path()
@@ -118,6 +118,39 @@ class C17(Prop):
                     for h in (0, 1):
                         yield mk('c17.powChain', chain, h.to_bytes(32, 'little').hex(), b, tag='pow-switch')
 
+        # (e) histories: several checks in one process, the chain switched between them, the SAME compact value
+        #     repeated right after it was accepted (or rejected) under another chain, with rejected checks in
+        #     between; every ordered pair of chains
+        probe2 = sorted(set(probe) | {0x1d00ffff | 0x800000, 0x21010000, 0, 0x01003456})
+        le = lambda v: v.to_bytes(32, 'little').hex()
+        # first step of every history: an accepted check of a value used nowhere else, so that a remembered
+        # 'last accepted' value of an earlier case does not leak into this one and the replay reproduces
+        FLUSH = ('regtest', le(0), 0x03000001)
+        for ca in CHAINS:
+            for cb in CHAINS:
+                for b in probe2:
+                    i += 1
+                    if i % nshards != shard:
+                        continue
+                    t = self.S.uint256_from_compact(b & 0xff7fffff) % (1 << 256)
+                    for h in sorted({0, t, min(t + 1, (1 << 256) - 1)}):
+                        yield mk('c17.powSeq', *FLUSH, ca, le(0), b, cb, le(h), b, tag='pow-hist')
+                    yield mk('c17.powSeq', *FLUSH, ca, le(0), b, cb, 'ff' * 32, 0x1d00ffff, cb, le(0), b, tag='pow-hist')
+                    yield mk('c17.powSeq', *FLUSH, ca, le(0), b, ca, le(t), b, cb, le(0), 0x2100ffff, cb, le(t), b,
+                             tag='pow-hist')
+        crng = random.Random('%s:C17:%s:hist' % (self.seed, tier))
+        for k in range(4000 if big else 400):
+            seq = []
+            bsel = [crng.choice(probe2) for _ in range(2)]
+            for _ in range(crng.randint(2, 6)):
+                b = crng.choice(bsel)
+                t = self.S.uint256_from_compact(b & 0xff7fffff) % (1 << 256)
+                seq += [crng.choice(CHAINS), le(crng.choice([0, t, min(t + 1, (1 << 256) - 1), (1 << 256) - 1])), b]
+            i += 1
+            if i % nshards != shard:
+                continue
+            yield mk('c17.powSeq', *FLUSH, *seq, tag='pow-hist')
+
     def impl(self, c):
         S = self.S
         op, a = c['op'], c['args']
@@ -136,6 +169,18 @@ class C17(Prop):
                     self.bitcoin.SelectParams('mainnet')
                 return 'ok'
             return guarded(f)
+        if op == 'c17.powSeq':
+            outs = []
+            try:
+                for k in range(0, len(a), 3):
+                    def f(k=k):
+                        self.bitcoin.SelectParams(a[k])
+                        self.core.CheckProofOfWork(bytes.fromhex(a[k + 1]), int(a[k + 2]))
+                        return 'ok'
+                    outs.append(guarded(f))
+            finally:
+                self.bitcoin.SelectParams('mainnet')
+            return ','.join(outs)
         raise ValueError(op)
 
     def nontrivial(self, c, io):
@@ -149,6 +194,10 @@ class C17(Prop):
                     yield mk(c['op'], chain, h2, b, tag=c.get('tag', ''))
             if chain != 'mainnet':
                 yield mk(c['op'], 'mainnet', h, b, tag=c.get('tag', ''))
+
+        # c17.powSeq histories are not shrunk: whether a shortened history still fails would be judged in this
+        # process, whose module state earlier cases may have touched; the unshortened history (≤ 6 steps)
+        # replays from a fresh process
 
     def signature(self, c, io, mo):
         if c['op'] == 'c17.powChain' and c['args'][0] == 'signet' and io == 'err:validation' and mo == 'ok' \
